@@ -24,6 +24,14 @@ type RaceCase struct {
 	Preps int              `json:"preps,omitempty"`
 }
 
+// repoRoot is where the engine sources were compiled from (tools/vbuild.py honours VERIF_REPO too).
+func repoRoot() string {
+	if r := os.Getenv("VERIF_REPO"); r != "" {
+		return strings.TrimSuffix(r, "/")
+	}
+	return "/repo"
+}
+
 var raceLogPrefix string
 var raceOffsets = map[string]int64{}
 
@@ -83,7 +91,7 @@ func engineRace(block string) (bool, string) {
 			if strings.HasPrefix(m[1], "/usr/lib/go") || strings.Contains(m[1], "/go/src/") {
 				continue
 			}
-			if strings.HasPrefix(m[1], "/repo/") && !strings.Contains(m[1], "/internal/verif/") && where == "" {
+			if strings.HasPrefix(m[1], repoRoot()+"/") && !strings.Contains(m[1], "/internal/verif/") && where == "" {
 				where = m[1] + ":" + m[2]
 			}
 			break
